@@ -19,7 +19,7 @@ ASSUMPTIONS = ["math/rand: Intn transcribed in Model/Rand.v; the recorded Int63 
                "nucleotide alphabet only for the sequence variant; characters of align.IupacCode in either case; other "
                "characters (X . ? *) get no state in asr.parsimonyUPPASS and are outside the property's quantifier: not generated",
                "site-by-site comparison: the character variant is given the upper-cased nucleotide as the state"]
-LEVEL_TEXT = ("Theorems (Properties/C12.v, 53 statements, closed) for all well-formed trees of any degree and all tip-state "
+LEVEL_TEXT = ("Theorems (Properties/C12.v, 62 statements, closed) for all well-formed trees of any degree and all tip-state "
               "assignments (single states or non-empty sets): the up-pass step count = the definitional minimum over all "
               "labellings (Hartigan); the minimum and the step count are invariant under Reroot; DOWNPASS reports at every "
               "inner node exactly the states of the most-parsimonious labellings; DELTRAN and ACCTRAN report only such states; "
